@@ -281,8 +281,10 @@ CLAIMED.update({
         "level": ("Static, exhaustive per variant: for the 15 standalone conversion pairs between a fieldless domain enum and its wire enum "
                   "(discovered from all function signatures in the workspace) decode(encode(v)) = v; Operator::from_proto_name and "
                   "from_proto_binary_op map every operator's wire name back to that operator or refuse it with an explicit error (never "
-                  "to a different operator). A wrong tag makes two different plans encode identically. Field coverage of the messages "
-                  "and equality of whole plans are not decided."),
+                  "to a different operator); every Expr variant the encoder supports comes back as the same variant through the ExprType oneof (33 pairs); "
+                  "every message field is written / read by the logical encoders / decoders, and every field of a plan node / expression payload struct is read "
+                  "by the encoder (four fields are not: known findings F16). A wrong tag makes two different plans encode identically. "
+                  "Equality of whole plans and the values carried by the fields are not decided."),
     },
     "C36": {
         "technique": "static analysis: exhaustive evaluation of enum conversions; inline enum mappings extracted from try_to_proto / try_from_proto by forcing the domain of the wire-typed local",
